@@ -89,6 +89,7 @@ class TrackWorld(World):
                  "tracklib.core.ObsTime", "tracklib.core.operators", "tracklib.core.utils (makeRPN, addListToAF)",
                  "tracklib.algo.cinematics.computeAbsCurv / estimate_speed", "tracklib.algo.analytics (ds, speed)"],
         "stub": ["stdout of tracklib: discarded"]}
+    STATE_MEASURE = "per session: (size class 0,1,2,3,non-power-of-two,power-of-two; number of listed features; time-sorted; abs_curv cached; speed cached)"
     ASSUMPTIONS = [
         "in-memory world: no disk, clock or scheduler exists on these code paths; the only injected fault is "
         "a request the API documents as refused",
